@@ -647,11 +647,10 @@ def ob_g(ob):
 
 
 # ---- shared obligation: the two-centre integrals use the MOPAC floor on h_pp; the derivative kernel and the energy kernel must be fed the same multipole parameters ----
-from . import C01 as _C01_mod  # noqa: E402
-
-
-@obligation(PID, "h", title="[shared with C01.b] " + [e for e in __import__("engine.ob", fromlist=["REGISTRY"]).REGISTRY["C01"] if e[1] is _C01_mod.ob_b][0][3])
+@obligation(PID, "h", title='[shared with C01.b] the multipole parameters (dd, qq, rho0, rho1, rho2) handed to the integral-derivative kernel are the ones handed to the energy kernel, for all Hamiltonian parameter values')
 def ob_h_shared(ob):
     """the two-centre integrals use the MOPAC floor on h_pp; the derivative kernel and the energy kernel must be fed the same multipole parameters"""
+    from . import C01 as _m  # imported lazily: the harness modules share obligations in both directions
+
     ob.note("this obligation is the one registered as C01.b; it is also decided here because the two-centre integrals use the MOPAC floor on h_pp; the derivative kernel and the energy kernel must be fed the same multipole parameters")
-    _C01_mod.ob_b(ob)
+    _m.ob_b(ob)
